@@ -174,11 +174,54 @@ def check_program(prog, version, rng, ctr, viols, nontrivial, match_regex, parse
                 viols.append({"kind": "covered-extra", "key": kind,
                               "what": "label %s pattern %s: covered contains lines %s that do not lie on a path from the label to a match" % (label, pat, [x + 1 for x in extra]),
                               "src": src, "regex": text})
+            # colours in the exported DOT (a sample): match rows red, covered rows green (green wins on overlap)
+            if want_m and ctr["queries"] % 7 == 0:
+                try:
+                    check_colours(teal, text, matches, covered, viols, src, ctr)
+                except Exception as e:
+                    viols.append({"kind": "regex-export-crash", "key": kind, "what": "run_regex raised %s: %s" % (type(e).__name__, e), "src": src, "regex": text})
             if missing:
                 viols.append({"kind": "covered-missing", "key": kind,
                               "what": "label %s pattern %s: lines %s lie on a path from the label to a match (at %s) but are not covered" % (
                                   label, pat, [x + 1 for x in missing], [m[0] + 1 for m in want_m_s]),
                               "src": src, "regex": text, "prog": prog, "version": version})
+
+
+def check_colours(teal, regex_text, matches, covered, viols, src, ctr):
+    import os
+    import re as _re
+    import tempfile
+    from pathlib import Path
+    from tealer.utils.regex.regex import run_regex
+    d = tempfile.mkdtemp(prefix="vt_rx_")
+    try:
+        rx = os.path.join(d, "rx.txt")
+        with open(rx, "w") as f:
+            f.write(regex_text)
+        outp = os.path.join(d, "regex_result.dot")
+        with observe.Quiet():
+            run_regex(teal, Path(rx), Path(outp))
+        dot = open(outp).read()
+        ctr["regex_dots_read"] += 1
+        red, green = set(), set()
+        for m in _re.finditer(r'<TD ALIGN="LEFT" BALIGN="LEFT" COLOR="([^"]*)">(.*?)</TD>', dot, _re.S):
+            last = m.group(2).split("<BR/>")[-1]
+            mm = _re.match(r"^(?:<B><I>)?(\d+)\. ", _re.sub(r"</?[BI]>", "", last))
+            if not mm:
+                continue
+            if m.group(1) == "#e0182b":
+                red.add(int(mm.group(1)))
+            elif m.group(1) == "#36d899":
+                green.add(int(mm.group(1)))
+        want_green = set(i.line for i in covered)
+        want_red = set(i.line for mt in matches for i in mt) - want_green
+        if red != want_red or green != want_green:
+            viols.append({"kind": "regex-dot-colours", "key": "colours", "src": src, "regex": regex_text,
+                          "what": "regex_result.dot marks lines red %s / green %s; matches are %s, covered %s" % (
+                              sorted(red)[:10], sorted(green)[:10], sorted(want_red)[:10], sorted(want_green)[:10])})
+    finally:
+        import shutil
+        shutil.rmtree(d, ignore_errors=True)
 
 
 def run_batch(spec):
